@@ -533,6 +533,16 @@ func (c *compiler) compileBind(l, r *Query, patterns []*Pattern) error {
 	}
 	var pc int
 	var vs [][2]int
+	if len(patterns) > 1 {
+		// All the variables of all the patterns are visible in the body, so reset
+		// the ones of the later patterns not to leak the values of previous bindings.
+		for _, p := range patterns[1:] {
+			for _, name := range p.variables(nil) {
+				c.append(&code{op: oppush, v: nil})
+				c.append(&code{op: opstore, v: c.pushVariable(name)})
+			}
+		}
+	}
 	for i, p := range patterns {
 		var pcc int
 		var err error
